@@ -8,7 +8,9 @@ declarations).  The theorems here state, for every argument, what the tables' it
   height meets exactly the keys filed under that height (C13; C05/C06 active pools and reward rules; C04 expiry
   queue; C08 batch queues; C18 request queue);
 * look-up keys are injective in the id (two ids never share a slot: C03, C18, C19, C08);
-* the tables of one module start with different bytes (no key of one table is read as a key of another).
+* the tables of one module start with different bytes (no key of one table is read as a key of another);
+* the big-endian height encoding is injective (`fromBE_be`: decoding gives the number back), so a queue key filed under
+  one height never lies in the subspace the blocker iterates for another height (`*_height_separated`).
 
 Changing the order of the fields, dropping the delimiter, reusing a prefix byte or building the subspace differently
 from the key breaks one of these (old seeds C17-3, C17-5, C06-6, C18-5).
@@ -23,6 +25,7 @@ theorem keys_translated_pinned : Irismod.Gen.PureKeys.translated =
     ["OracleGetFeedKey(feedName)",
      "OracleGetReqCtxIDKey(requestContextID)",
      "OracleGetFeedValuePrefixKey(feedName)",
+     "OracleGetFeedValueKey(feedName,batchCounter)",
      "RandomKeyRandom(reqID)",
      "RandomKeyRequestQueue(height,reqID)",
      "RandomKeyRequestQueueSubspace(height)",
@@ -86,6 +89,11 @@ theorem oracle_layout (name : String) (id : ByteArray) :
     OracleGetReqCtxIDKey id = some (P 2 ++ P 0 ++ id) ∧
     OracleGetFeedValuePrefixKey name = some (P 3 ++ name.toUTF8 ++ P 0) := ⟨rfl, rfl, rfl⟩
 
+/-- a feed value is filed under the feed's name, the delimiter, then the batch counter big-endian (so the values of one
+feed are iterated in batch order and `deleteOldestFeedValue` meets the smallest counter first) -/
+theorem oracle_value_layout (name : String) (n : Nat) :
+    OracleGetFeedValueKey name n = some (P 3 ++ name.toUTF8 ++ P 0 ++ Uint64ToBigEndian n) := rfl
+
 theorem farm_layout (pool reward addr : String) (h : Int) (pid : Nat) :
     FarmKeyFarmPool pool = some (P 6 ++ pool.toUTF8) ∧
     FarmKeyRewardRule pool reward = some (P 2 ++ pool.toUTF8 ++ P 0 ++ reward.toUTF8) ∧
@@ -128,6 +136,9 @@ theorem append_assoc' (a b c : ByteArray) : a ++ (b ++ c) = a ++ b ++ c := by
 
 theorem random_queue_in_subspace (h : Int) (id : ByteArray) :
     RandomKeyRequestQueue h id = (RandomKeyRequestQueueSubspace h).map (· ++ id) := rfl
+
+theorem oracle_value_in_subspace (name : String) (n : Nat) :
+    OracleGetFeedValueKey name n = (OracleGetFeedValuePrefixKey name).map (· ++ Uint64ToBigEndian n) := rfl
 
 theorem farm_active_in_subspace (h : Int) (pool : String) :
     FarmKeyActiveFarmPool h pool = (FarmPrefixActiveFarmPool h).map (· ++ pool.toUTF8) := rfl
@@ -210,5 +221,112 @@ theorem oracle_tables_disjoint (name : String) (id : ByteArray) :
     first (OracleGetFeedKey name) = some 1 ∧ first (OracleGetReqCtxIDKey id) = some 2 ∧
     first (OracleGetFeedValuePrefixKey name) = some 3 :=
   ⟨first_P2 1 _ _, first_P2 2 _ _, first_P2 3 _ _⟩
+
+/-! ### heights: the big-endian encoding is injective, so the subspaces of two heights share no key -/
+
+/-- the number a big-endian byte string denotes -/
+def fromBE (b : ByteArray) : Nat := b.data.toList.foldl (fun a x => a * 256 + x.toNat) 0
+
+theorem be_data (n : Nat) : (Uint64ToBigEndian n).data.toList =
+    [UInt8.ofNat ((n >>> 56) % 256), UInt8.ofNat ((n >>> 48) % 256), UInt8.ofNat ((n >>> 40) % 256), UInt8.ofNat ((n >>> 32) % 256),
+     UInt8.ofNat ((n >>> 24) % 256), UInt8.ofNat ((n >>> 16) % 256), UInt8.ofNat ((n >>> 8) % 256), UInt8.ofNat ((n >>> 0) % 256)] := rfl
+
+theorem toNat_ofNat_mod (x : Nat) : (UInt8.ofNat (x % 256)).toNat = x % 256 := by
+  simp [UInt8.toNat_ofNat']
+
+/-- decoding the encoding of a uint64 gives it back -/
+theorem fromBE_be (n : Nat) (h : n < 18446744073709551616) : fromBE (Uint64ToBigEndian n) = n := by
+  unfold fromBE
+  rw [be_data]
+  simp only [List.foldl, toNat_ofNat_mod, Nat.shiftRight_eq_div_pow]
+  omega
+
+theorem be_injective (a b : Nat) (ha : a < 18446744073709551616) (hb : b < 18446744073709551616)
+    (h : Uint64ToBigEndian a = Uint64ToBigEndian b) : a = b := by
+  rw [← fromBE_be a ha, ← fromBE_be b hb, h]
+
+theorem be_length (n : Nat) : (Uint64ToBigEndian n).data.toList.length = 8 := by rw [be_data]; rfl
+
+theorem prefix_eq_of_append_eq (a b x y : ByteArray) (h : a ++ x = b ++ y)
+    (hs : a.data.toList.length = b.data.toList.length) : a = b := by
+  have h1 := congrArg (fun z => z.data.toList) h
+  simp only [ByteArray.data_append, Array.toList_append] at h1
+  have := (List.append_inj h1 hs).1
+  exact ByteArray.ext (Array.ext' this)
+
+/-- a key filed under the encoded number `a` that lies in the subspace of `b` (same table prefix) has `a = b` -/
+theorem subspace_separates (p : ByteArray) (a b : Nat) (x y : ByteArray) (ha : a < 18446744073709551616)
+    (hb : b < 18446744073709551616) (h : p ++ Uint64ToBigEndian a ++ x = p ++ Uint64ToBigEndian b ++ y) : a = b := by
+  rw [← append_assoc', ← append_assoc'] at h
+  have h2 := append_left_cancel _ _ _ h
+  exact be_injective a b ha hb (prefix_eq_of_append_eq _ _ _ _ h2 (by rw [be_length, be_length]))
+
+theorem u64_of_height (h : Int) (h0 : 0 ≤ h) (h1 : h < 9223372036854775808) :
+    U64_ofI64 h = h.toNat ∧ h.toNat < 18446744073709551616 := by
+  unfold U64_ofI64
+  have : h.emod 18446744073709551616 = h := Int.emod_eq_of_lt h0 (by omega)
+  rw [this]; omega
+
+/-- heights of a chain (0 ≤ h < 2^63): a queue key of height `h1` lies in the subspace of `h2` only when `h1 = h2` -/
+theorem height_separates (p : ByteArray) (h1 h2 : Int) (x y : ByteArray) (a0 : 0 ≤ h1) (a1 : h1 < 9223372036854775808)
+    (b0 : 0 ≤ h2) (b1 : h2 < 9223372036854775808) (h : p ++ be h1 ++ x = p ++ be h2 ++ y) : h1 = h2 := by
+  have e1 := u64_of_height h1 a0 a1
+  have e2 := u64_of_height h2 b0 b1
+  unfold be at h
+  rw [e1.1, e2.1] at h
+  have := subspace_separates p _ _ x y e1.2 e2.2 h
+  omega
+
+theorem random_queue_height_separated (h1 h2 : Int) (id rest k s : ByteArray) (a0 : 0 ≤ h1) (a1 : h1 < 9223372036854775808)
+    (b0 : 0 ≤ h2) (b1 : h2 < 9223372036854775808) (hk : RandomKeyRequestQueue h1 id = some k)
+    (hs : RandomKeyRequestQueueSubspace h2 = some s) (hp : k = s ++ rest) : h1 = h2 := by
+  rw [(random_layout h1 id).2.1] at hk
+  rw [(random_layout h2 id).2.2.1] at hs
+  have hk' := Option.some.inj hk
+  have hs' := Option.some.inj hs
+  subst hk' hs'
+  exact height_separates _ h1 h2 id rest a0 a1 b0 b1 hp
+
+theorem farm_active_height_separated (h1 h2 : Int) (pool : String) (rest k s : ByteArray) (a0 : 0 ≤ h1)
+    (a1 : h1 < 9223372036854775808) (b0 : 0 ≤ h2) (b1 : h2 < 9223372036854775808)
+    (hk : FarmKeyActiveFarmPool h1 pool = some k) (hs : FarmPrefixActiveFarmPool h2 = some s) (hp : k = s ++ rest) : h1 = h2 := by
+  rw [(farm_layout pool pool pool h1 0).2.2.2.2.2.1] at hk
+  rw [(farm_layout pool pool pool h2 0).2.2.2.2.2.2.1] at hs
+  have hk' := Option.some.inj hk
+  have hs' := Option.some.inj hs
+  subst hk' hs'
+  exact height_separates _ h1 h2 _ rest a0 a1 b0 b1 hp
+
+theorem htlc_expired_height_separated (h1 h2 : Nat) (id rest k s : ByteArray) (a1 : h1 < 18446744073709551616)
+    (b1 : h2 < 18446744073709551616) (hk : HtlcGetHTLCExpiredQueueKey h1 id = some k)
+    (hs : HtlcGetHTLCExpiredQueueSubspace h2 = some s) (hp : k = s ++ rest) : h1 = h2 := by
+  rw [(htlc_layout id h1 "").2.1] at hk
+  rw [(htlc_layout id h2 "").2.2.1] at hs
+  have hk' := Option.some.inj hk
+  have hs' := Option.some.inj hs
+  subst hk' hs'
+  exact subspace_separates _ h1 h2 id rest a1 b1 hp
+
+theorem service_expired_batch_height_separated (h1 h2 : Int) (ctx rest k s : ByteArray) (a0 : 0 ≤ h1)
+    (a1 : h1 < 9223372036854775808) (b0 : 0 ≤ h2) (b1 : h2 < 9223372036854775808)
+    (hk : ServiceGetExpiredRequestBatchKey ctx h1 = some k) (hs : ServiceGetExpiredRequestBatchSubspace h2 = some s)
+    (hp : k = s ++ rest) : h1 = h2 := by
+  rw [(service_layout ctx ctx h1).2.1, append_assoc'] at hk
+  rw [(service_layout ctx ctx h2).2.2.1] at hs
+  have hk' := Option.some.inj hk
+  have hs' := Option.some.inj hs
+  subst hk' hs'
+  exact height_separates _ h1 h2 _ rest a0 a1 b0 b1 hp
+
+theorem service_new_batch_height_separated (h1 h2 : Int) (ctx rest k s : ByteArray) (a0 : 0 ≤ h1)
+    (a1 : h1 < 9223372036854775808) (b0 : 0 ≤ h2) (b1 : h2 < 9223372036854775808)
+    (hk : ServiceGetNewRequestBatchKey ctx h1 = some k) (hs : ServiceGetNewRequestBatchSubspace h2 = some s)
+    (hp : k = s ++ rest) : h1 = h2 := by
+  rw [(service_layout ctx ctx h1).2.2.2.1, append_assoc'] at hk
+  rw [(service_layout ctx ctx h2).2.2.2.2.1] at hs
+  have hk' := Option.some.inj hk
+  have hs' := Option.some.inj hs
+  subst hk' hs'
+  exact height_separates _ h1 h2 _ rest a0 a1 b0 b1 hp
 
 end Irismod.Props.TieKeys
